@@ -91,6 +91,7 @@ class EngineBase:
         self.iter_sorts = {}      # sort -> callable(engine, st, obj) -> list VRef (iteration sequence)
         self.unpack_sorts = {}    # sort -> callable(engine, st, obj) -> VTup (tuple unpacking of an abstract object)
         self.callable_sorts = {}  # sort -> callable(engine, st, fobj, args) -> Val
+        self.member_sorts = {}    # sort -> callable(engine, st, container obj, x) -> z3 Bool  (``x in obj``)
         self.entry_fid = None
         self.cur_loops = []
         self.lemma_obligations = []
